@@ -787,6 +787,45 @@ class NDArray:
             return NDArray(self.shape, lambda i: mk_int(zint(src.fn(i))), d, self.mask_fn)
         raise Unsupported(f'astype {self.dtype.name} -> {d.name}')
 
+    def _extreme(self, which, axis, kw):
+        """NP-MINMAX-SKOLEM: a.min() / a.max() over all entries of an integer array (masked entries ignored): a value m with a witness
+        position w inside the array such that a[w] == m and m <= a[q] (>=) for every position q (a quantified fact).
+        ValueError on an empty array."""
+        used('NP-MINMAX-SKOLEM')
+        if axis is not None or kw or self.dtype.kind not in 'iu':
+            raise Unsupported(f'ndarray.{which} with an axis / of a non-integer array')
+        c = core.ctx()
+        size = prod(self.shape)
+        if c.branch(zint(size) == 0) if is_sym(size) else size == 0:
+            raise_(ValueError, f'zero-size array to reduction operation {which}imum which has no identity')
+        src = self.frozen()
+        m = c.fresh_int(which + '_value')
+        w = tuple(c.fresh_int(f'{which}_at{k}') for k in range(self.ndim))
+        for k, n in zip(w, self.shape):
+            c.assume(z3.And(k.z >= 0, k.z < zint(n)))
+        if src.mask_fn is not None:
+            mk = truthy(src.mask_fn(w))
+            if mk is not False:
+                c.assume(z3.Not(zbool(mk)))
+        c.assume(zint(src.fn(w)) == m.z)
+        # ... and it bounds every (unmasked) entry: a universally quantified fact over the index variables
+        qs = [z3.Int(c._name(f'{which}_q{k}')) for k in range(self.ndim)]
+        qi = tuple(mk_int(q) for q in qs)
+        inr = z3.And(*[z3.And(q >= 0, q < zint(n)) for q, n in zip(qs, self.shape)])
+        live = z3.BoolVal(True)
+        if src.mask_fn is not None:
+            mq = truthy(src.mask_fn(qi))
+            live = z3.BoolVal(not mq) if isinstance(mq, bool) else z3.Not(zbool(mq))
+        v = zint(src.fn(qi))
+        c.assume(z3.ForAll(qs, z3.Implies(z3.And(inr, live), (m.z <= v) if which == 'min' else (m.z >= v))))
+        return m
+
+    def min(self, axis=None, **kw):
+        return self._extreme('min', axis, kw)
+
+    def max(self, axis=None, **kw):
+        return self._extreme('max', axis, kw)
+
     def any(self, axis=None, **kw):
         return reduce_bool(self, axis, 'any')
 
